@@ -40,7 +40,9 @@ MiniGops(first, n, mg) ==            \* decode order of pocs first .. n-1
   IF first > n - 1 THEN <<>>
   ELSE IF first + mg - 1 <= n - 1
          THEN <<first + mg - 1>> \o Bisect(first - 1, first + mg - 1) \o MiniGops(first + mg, n, mg)
-         ELSE [i \in 1 .. n - first |-> first + i - 1]       \* incomplete tail: low delay, in order
+         ELSE IF mg > 8
+                THEN MiniGops(first, n, mg \div 2)              \* incomplete window: smaller complete mini-GOPs (>= 8) first
+                ELSE [i \in 1 .. n - first |-> first + i - 1]   \* remaining tail: low delay, in order
 DecOrderOf(n, lv) == IF n = 0 THEN <<>> ELSE <<0>> \o MiniGops(1, n, 2 ^ lv)   \* pocs in decode order
 
 VARIABLES N,        \* pictures submitted (chosen in Init)
